@@ -504,3 +504,53 @@ Section StructB.
         intros o Ho. rewrite forallb_forall in H2. now apply negb_true_iff, H2.
   Qed.
 End StructB.
+
+From Verif Require Import PatchProofsCheck.
+
+Section TreeWab.
+  Variable diff : differ.
+
+  Fixpoint tree_wab (fuel : nat) (old new : elem) : bool :=
+    match fuel with
+    | O => false
+    | S f =>
+      seqb (e_tag old) (e_tag new) && mandatory_idb old && mandatory_idb new &&
+      if seqb (e_tag old) "SegmentTimeline" then stl_okb diff old new
+      else if isLeaf old && isLeaf new then leaf_pair_okb old new
+      else
+        seqb (e_text old) (e_text new) && attrs_okb (e_attrs old) (e_attrs new) &&
+        same_addr_attrsb (e_attrs old) (e_attrs new) &&
+        uniqb (e_children old) && uniqb (e_children new) &&
+        match diff sameElements (e_children old) (e_children new) with
+        | Ok s => valid_script sameElements s (e_children old) (e_children new) &&
+                  loop_wab (tree_wab f) (e_children old) (e_children new) s 0 0
+        | _ => false
+        end
+    end.
+
+  Theorem tree_wab_spec : forall fuel old new, tree_wab fuel old new = true -> tree_wa diff fuel old new.
+  Proof.
+    induction fuel as [|f IH]; intros old new H; cbn [tree_wab tree_wa] in *; [discriminate|].
+    apply andb_true_iff in H. destruct H as [H Hrest]. apply andb_true_iff in H. destruct H as [H Hm2].
+    apply andb_true_iff in H. destruct H as [Ht Hm1]. apply seqb_eq in Ht.
+    split; [exact Ht|]. split; [now apply mandatory_idb_spec|]. split; [now apply mandatory_idb_spec|].
+    (* the SegmentTimeline and leaf cases are those of tree_okb *)
+    pose proof (tree_okb_spec diff 1 old new) as Hleaf. cbn [tree_okb tree_ok] in Hleaf.
+    destruct (seqb (e_tag old) "SegmentTimeline") eqn:ES.
+    - assert (Hb : seqb (e_tag old) (e_tag new) && mandatory_idb old && mandatory_idb new && stl_okb diff old new = true).
+      { rewrite Ht, seqb_refl, Hm1, Hm2, Hrest. reflexivity. }
+      now destruct (Hleaf Hb) as (_ & _ & _ & Hs).
+    - destruct (isLeaf old && isLeaf new) eqn:EL.
+      + assert (Hb : seqb (e_tag old) (e_tag new) && mandatory_idb old && mandatory_idb new && leaf_pair_okb old new = true).
+        { rewrite Ht, seqb_refl, Hm1, Hm2, Hrest. reflexivity. }
+        now destruct (Hleaf Hb) as (_ & _ & _ & Hs).
+      + clear Hleaf. apply andb_true_iff in Hrest. destruct Hrest as [H Hd]. apply andb_true_iff in H. destruct H as [H Hun].
+        apply andb_true_iff in H. destruct H as [H Huo]. apply andb_true_iff in H. destruct H as [H Hsa].
+        apply andb_true_iff in H. destruct H as [Htx Hok].
+        split; [now apply seqb_eq|]. split; [now apply attrs_okb_spec|]. split; [now apply same_addr_attrsb_spec|].
+        split; [now apply uniqb_spec|]. split; [now apply uniqb_spec|].
+        destruct (diff sameElements (e_children old) (e_children new)) as [s| |]; try discriminate.
+        apply andb_true_iff in Hd. destruct Hd as [Hv Hl]. exists s. split; [reflexivity|]. split; [exact Hv|].
+        eapply loop_wab_spec; [|exact Hl]. exact IH.
+  Qed.
+End TreeWab.
